@@ -251,7 +251,7 @@ var fwdFlags = []rune{'+', '-', '#', ' ', '0'}
 // abstractly and compares what MakeFormat returns with the directive.
 func ruleC14abc(c *Ctx) []*report.Result {
 	r := report.NewResult("C14.abc", "MakeFormat, interpreted abstractly for every combination of the five flags, width present/absent, precision present/absent (2^7) and verb in {v, s, d, any other}: on its single path it returns '%' + exactly the set flags (each once) + the width iff present + '.'precision iff present + the verb, and justV is true exactly for bare %v", 512)
-	fn := c.P.Func("internal/fmtforward", "MakeFormat")
+	fn := c.internalTarget("internal/fmtforward", "MakeFormat")
 	if fn == nil {
 		r.Undecide("fmtforward.MakeFormat not found")
 		return []*report.Result{r}
@@ -393,6 +393,8 @@ func canonFormat(f string) (string, string) {
 // Fprint for bare %v and Fprintf with the reproduced format otherwise.
 func ruleC14d(c *Ctx) []*report.Result {
 	r := report.NewResult("C14.d", "Safe/Unsafe wrappers' Format call ReproducePrintf(s, s, verb, inner value); ReproducePrintf prints with fmt.Fprint iff MakeFormat reported bare %v, otherwise with fmt.Fprintf and the reproduced format, the operand being the single argument in both", 8)
+	reproduce := c.reproduceFn()
+	makeFormat := c.internalTarget("internal/fmtforward", "MakeFormat")
 	for _, name := range []string{"(unsafeWrap).Format", "(safeWrapper).Format"} {
 		fn := c.P.Func("internal/redact", name)
 		construct := "internal/redact." + name
@@ -403,11 +405,11 @@ func ruleC14d(c *Ctx) []*report.Result {
 		// helpers of the wrapper package are read in place
 		fl := flatten(fn, func(g *ssa.Function) bool {
 			// helpers of the wrapper package, and of the forwarding package other than the forwarder itself
-			return g.Pkg == fn.Pkg || (pkgPathOf(g) == pkgFwd && g.String() != pkgFwd+".ReproducePrintf")
+			return g.Pkg == fn.Pkg || (pkgPathOf(g) == pkgFwd && g != reproduce)
 		})
 		calls := fl.calls
 		pos := c.P.Pos(fn.Pos())
-		if !fl.straight || len(calls) != 1 || calls[0].Common().StaticCallee() == nil || calls[0].Common().StaticCallee().String() != pkgFwd+".ReproducePrintf" {
+		if !fl.straight || len(calls) != 1 || calls[0].Common().StaticCallee() == nil || calls[0].Common().StaticCallee() != reproduce || reproduce == nil {
 			r.Fail(construct+" / single forward", pos, "body must be exactly one call of fmtforward.ReproducePrintf", nil, "")
 			continue
 		}
@@ -433,7 +435,7 @@ func ruleC14d(c *Ctx) []*report.Result {
 		r.Check(okV, construct+" / verb", pos, "ReproducePrintf must receive the active verb")
 		r.Check(okA, construct+" / operand", pos, "ReproducePrintf must receive the wrapped value")
 	}
-	fn := c.P.Func("internal/fmtforward", "ReproducePrintf")
+	fn := reproduce
 	if fn == nil {
 		r.Fail("fmtforward.ReproducePrintf", "internal/fmtforward/make_format.go", "function not found", nil, "")
 		return []*report.Result{r}
@@ -451,9 +453,10 @@ func ruleC14d(c *Ctx) []*report.Result {
 			if f == nil {
 				continue
 			}
-			switch f.String() {
-			case pkgFwd + ".MakeFormat":
+			if makeFormat != nil && f == makeFormat {
 				mk = call
+			}
+			switch f.String() {
 			case "fmt.Fprint":
 				fprint = call
 			case "fmt.Fprintf":
